@@ -88,6 +88,13 @@ def gen_cases(rng, n):
         if adv:
             hdrs = [hdr([19, 20]) for _ in range(nb)]
             bros = [[hdr([19, 20]) for _ in range(rng.choice([0, 0, 1, 2, 4]))] for _ in range(nb)]
+            if rng.random() < 0.08:
+                # the largest brother list the protocol allows (10), and one short of it
+                k = rng.randrange(nb)
+                bros[k] = [gen.boundary_header(rng, 19, rng.choice([54, 56, 58])) for _ in range(rng.choice([10, 10, 9]))]
+                force_ask = k
+            else:
+                force_ask = None
             for bl in bros:
                 # brothers sharing a block hash: the same header twice, or one differing only in
                 # the parts the hash does not cover (merkle proof, coinbase transaction)
@@ -108,6 +115,8 @@ def gen_cases(rng, n):
             plan["partial"] = adv and rng.random() < 0.6
         if adv:
             plan["ask_brothers"] = set(k for k in range(nb) if rng.random() < 0.6)
+            if force_ask is not None and "stop_after" not in plan:
+                plan["ask_brothers"].add(force_ask)
         d.bo_plan = plan
         meta = {"adv": adv, "headers": hdrs, "brothers": bros}
         if rng.random() < 0.1:
